@@ -65,6 +65,9 @@ pub enum Node {
     Bg(Vec<Node>),
     TrapExit(Handler),
     TrapExitRemove,
+    /// `trap "" EXIT` (ignore: nothing runs at exit)
+    #[serde(alias = "TrapExitIgnore")]
+    TrapExitIgnore,
     TrapErr(ErrHandler),
     Term(Cause),
 }
@@ -150,6 +153,10 @@ impl Renderer {
             Node::TrapExitRemove => {
                 let i = self.id();
                 format!("trap - EXIT; probe tr{i}")
+            }
+            Node::TrapExitIgnore => {
+                let i = self.id();
+                format!("trap \"\" EXIT; probe tr{i}")
             }
             Node::TrapErr(h) => match h {
                 ErrHandler::Clobbers => "trap \"probe err_h; true\" ERR".to_string(),
@@ -348,7 +355,7 @@ impl Model {
                 }
                 Flow::Continue
             }
-            Node::TrapExitRemove => {
+            Node::TrapExitRemove | Node::TrapExitIgnore => {
                 let i = self.id();
                 st.exit_trap = None;
                 st.status = 0;
@@ -447,7 +454,7 @@ fn gen_block(rng: &mut Rng, depth: u32, main_ctx: bool, in_eval: bool, budget: &
             }),
             6 if main_ctx => {
                 if rng.below(3) == 0 {
-                    Node::TrapExitRemove
+                    if rng.below(3) == 0 { Node::TrapExitIgnore } else { Node::TrapExitRemove }
                 } else {
                     Node::TrapErr(if rng.below(2) == 0 { ErrHandler::Clobbers } else { ErrHandler::Failing })
                 }
@@ -713,7 +720,7 @@ fn handler_of(case: &Case, marker: &Option<String>) -> Option<Handler> {
                         return Some(h.clone());
                     }
                 }
-                Node::TrapExitRemove => {
+                Node::TrapExitRemove | Node::TrapExitIgnore => {
                     *next += 1;
                 }
             }
